@@ -46,7 +46,7 @@ pub enum DerefAliases {
 pub enum SearchItem {
     Entry(StructureTag),
     Referral(StructureTag),
-    Done(LdapResult),
+    Done(Tag),
 }
 
 /// Wrapper for the internal structure of a result entry.
@@ -688,7 +688,10 @@ where
             SearchItem::Entry(tag) | SearchItem::Referral(tag) => {
                 return Ok(Some(ResultEntry(tag, controls)))
             }
-            SearchItem::Done(mut res) => {
+            SearchItem::Done(tag) => {
+                // Converted here and not in the connection driver: an ill-formed
+                // result must not bring down the connection task.
+                let mut res: LdapResult = tag.into();
                 res.ctrls = controls;
                 self.res = Some(res);
                 self.rx = None;
